@@ -155,6 +155,10 @@ def main(argv=None):
     cases = list(mod.cases(seed, a.tier))
     if a.limit:
         cases = cases[:a.limit]
+    # every fifth case (seed dependent) runs with the logging level at DEBUG; the flag travels in the case so replays repeat it
+    for i, c in enumerate(cases):
+        if isinstance(c, dict) and (i + 3 * seed) % 5 == 2:
+            c['_debug_logging'] = True
     n = len(cases)
     jobs = min(a.jobs, getattr(mod, 'JOBS', a.jobs))
     bpj = getattr(mod, 'BATCHES_PER_JOB', 3)
